@@ -6,6 +6,7 @@ use crate::rf::{self, Aff, Fld};
 use crate::runner::{Ctx, Failure, Info, Key, PropDef};
 use crate::src::Src;
 use crate::{ensure, fail};
+use num_traits::Zero;
 use serde_json::json;
 use sm9_core::Group;
 
@@ -62,8 +63,19 @@ fn run<G: Grp>(s: &mut Src, info: &mut Info, key: &mut Key, ctx: &Ctx) -> Result
     let (ka, kb, reln) = related(s, rel);
     let kc = scalar(s).k;
     let a: Pt<G> = point(s, &ka, ca)?;
-    let b: Pt<G> = point(s, &kb, cb)?;
+    let mut b: Pt<G> = point(s, &kb, cb)?;
     let c: Pt<G> = point(s, &kc, cc)?;
+    // co-Z pairs: two different points sharing one z (what X+Y and X-Y produce, or a common rescaling)
+    if s.choose(4) == 0 && !a.k.is_zero() && !b.k.is_zero() {
+        let za = G::coords(&a.val).2;
+        if za != G::B::one() {
+            b = Pt { k: b.k.clone(), rep: crate::gen::Rep::Rescaled, how: format!("rescaled to the z of A ({})", G::show_b(&za)), val: G::rescaled(&b.aff.unwrap(), &za), aff: b.aff };
+            if G::denotes(&b.val) != b.aff {
+                fail!("harness|co-z", "co-Z rescaling broke the operand");
+            }
+            info.class("coz:shared-z");
+        }
+    }
     info.class(format!("cell:{}|{}|{}|{}", G::NAME, reln, ca, cb));
     info.class(format!("rep:{}", a.rep.name()));
     info.class(format!("rep:{}", b.rep.name()));
